@@ -106,9 +106,11 @@ class Exec:
                     w.write(repo, p, c)
                 self.ledger.edit(olds[p] or "", c or "", who)
                 for ln in (op.get("desc") or {}).get("moved") or []:
-                    # a moved line is not a changed line; either its writer or the mover may be credited
+                    # a moved line is not a changed line; its writer or the mover may be credited - and
+                    # the human, when the line was already committed (its working-log attribution is
+                    # gone and git blame assigns the moved line to the new commit)
                     if self.ledger.who(ln) is not None:
-                        self.ledger.authors[norm(ln)].add(who)
+                        self.ledger.authors[norm(ln)].update((who, HUMAN))
                 if olds[p] and c:
                     hr = w.raw_git(repo, "show", "HEAD:" + p)
                     if hr.code == 0:
